@@ -739,3 +739,32 @@ fn copy_short_name_part_dotless_i() { copy_part_case("a\u{131}"); }
 #[kani::proof]
 #[kani::unwind(16)]
 fn copy_short_name_part_ligature() { copy_part_case("a\u{FB01}"); }
+
+/// C16 (uniqueness lemma over ALL generator states, not only those reachable from short names): for an arbitrary
+/// 8.3 image, base-name length, flags, bitmaps and retry hash, and an arbitrary existing entry `e`: after
+/// `add_existing(e)` the generator never produces `e`. In particular when `e` equals the name's own 8.3 image and
+/// that image is itself a numbered form (e.g. "ABCDEF~1"). By induction over the directory scan an alias differs
+/// from every entry fed to the generator.
+#[kani::proof]
+#[kani::unwind(12)]
+fn alias_unique_any_state() {
+    let basename_len: usize = kani::any();
+    kani::assume(basename_len <= 8);
+    let mut g = ShortNameGenerator {
+        chksum: kani::any(), long_prefix_bitmap: kani::any(), prefix_chksum_bitmap: kani::any(), name_fits: kani::any(),
+        lossy_conv: kani::any(), exact_match: kani::any(), basename_len, short_name: kani::any(),
+    };
+    let e: [u8; SFN_SIZE] = kani::any();
+    g.add_existing(&e);
+    if let Ok(a) = g.generate() {
+        let i: usize = kani::any();
+        kani::assume(i < SFN_SIZE);
+        // a != e: shown as "not all bytes equal" without a comparison loop
+        if a[i] != e[i] { return; }
+        let mut same = true;
+        let mut j = 0;
+        while j < SFN_SIZE { if a[j] != e[j] { same = false; } j += 1; }
+        assert!(!same);
+        kani::cover!(e == g.short_name);
+    }
+}
